@@ -1,7 +1,7 @@
 #!/bin/bash
 # runs the exec-family mutants sequentially; output to .work/mutants-exec.txt
 cd /verif
-M=design-notes/mutants
+M=/verif/design-notes/mutants
 {
 for pm in "C01 c01_include_dyn_ignored_when_skip_dyn" "C01 c01_object_value_vars_not_detected" "C05 c01_object_value_vars_not_detected" "C04 c04_thunk_error_swallowed" "C05 c05_input_field_default_dropped_for_vars" "C13 c13_mutation_breadth_first" "C20 c20_static_args_shared" "C20 c20_ctx_not_forwarded_to_istypeof" "C20 c20_fragments_missing" "C20 c20_variable_values_raw"; do
   set -- $pm
